@@ -207,7 +207,7 @@ def _edge_check(spec, budget, nedges):
             c2 = c.replace("NEXTARGS", " ".join(vals[x] for x in subn)).replace("INITARGS", " ".join(vals[x] for x in subi))
             with open(chk, "w") as fh:
                 fh.write(c2)
-            pc = sh("timeout 600 coqc -Q %s/theories DbftV %s" % (COQ, chk), cwd=wd, check=False)
+            pc = sh("timeout 2400 coqc -Q %s/theories DbftV %s" % (COQ, chk), cwd=wd, check=False)
             if pc.returncode == 0:
                 found = pc.stdout
                 break
@@ -221,7 +221,7 @@ def _edge_check(spec, budget, nedges):
         else:
             out["error"] = "cannot parse: " + found[-300:]
     else:
-        out["error"] = "edge check file does not compile: " + (pc.stdout[-600:] if pc else types[-300:])
+        out["error"] = "edge check file does not compile (rc=%s): " % (pc.returncode if pc else "?") + (pc.stdout[-600:] if pc else types[-300:])
     sh("rm -rf %s" % wd)
     return out
 
@@ -256,7 +256,7 @@ def decide_tla(pid, tier, sd):
                 sh("rm -rf %s" % r["wd"])
                 r.pop("wd", None)
                 return ("inv", r)
-            return ("edge", _edge_check(j[1], j[3], 150 if quick else 4000))
+            return ("edge", _edge_check(j[1], j[3], 150 if quick else (4000 if j[1] in ("dbft", "antiMEV") else 1200)))
         with concurrent.futures.ThreadPoolExecutor(max_workers=8) as ex:
             res = list(ex.map(run, jobs))
         return {"inv": [r for k, r in res if k == "inv"], "edge": [r for k, r in res if k == "edge"]}
